@@ -358,10 +358,13 @@ class World(object):
     # -- step function --------------------------------------------------------------------------
     def _stepfn(self, context, src):
         from behave.api.pending_step import StepNotImplementedError
+        full = src
         src = src.split()[0]        # a parametrised (background) step carries the row value after its source id
         sc = getattr(context, "scenario", None)
         e = self.elem_of(sc)
         sid = e.eid if e is not None else "?"
+        if "<" in full:
+            self.events.append(("unrendered-placeholder", sid, full))       # a row's step must carry the row's value
         self.calls.append((sid, src))
         self.timeline.append(("call", sid, src))
         if self.opts.get("prints"):
